@@ -153,6 +153,7 @@ struct DevSpec
     Schedule sch;
     int bufsz = -1;   // stdio buffer / streambuf area size
     int showmany = 0;
+    int preamble = 0; // write side: bytes of earlier output already in the FILE* / ostream when write_view is called
 };
 
 inline char const* dev_name(DevKind k) { return k == DEV_FILE ? "FILE" : k == DEV_ISTREAM ? "istream" : k == DEV_NAME ? "name" : "TIFF"; }
@@ -168,6 +169,7 @@ inline DevSpec dev_from_json(Json const& j)
     d.bufsz = (int)j.num("bufsz", -1);
     d.showmany = (int)j.num("showmany", 0);
     d.sch.seekable = j.num("noseek", 0) == 0;
+    d.preamble = (int)j.num("pre", 0);
     return d;
 }
 
@@ -305,7 +307,7 @@ inline void device_faults(DevSpec& d, Json const& ops)
     for (auto const& op : ops.a)
     {
         std::string f = op.str("f");
-        if (f == "eio") d.sch.eio_at = (long)op.num("k");
+        if (f == "eio") { d.sch.eio_at = (long)op.num("k"); d.sch.eio_sticky = op.num("sticky") != 0; }
         else if (f == "seekfail") d.sch.seekfail_at = (long)op.num("k");
         else if (f == "noseek") d.sch.seekable = false;
     }
